@@ -463,3 +463,20 @@ Definition index_wid (o : qopts) (ct : container) (sup : option qopts) : bool :=
   | Some og => q_storeid og
   | None => match ct with CV2 _ _ _ _ (Some (_, wid)) => wid | _ => q_storeid o end
   end.
+
+(* decidable forms of the two content conditions of the random-access read-back theorems (proofs:
+   ReadOnlyReaders.consistentb_sound / id_consistentb_sound): sections with equal multihash carry equal
+   bytes; identity sections carry their digest.  Both hold of hash-consistent blocks; the harness evaluates
+   them on every case's stored blocks. *)
+Definition consistentb (bs : list block) : bool :=
+  forallb (fun b1 => forallb (fun b2 =>
+    match cid_parse (fst b1), cid_parse (fst b2) with
+    | Some p1, Some p2 =>
+        negb ((c_mhcode p1 =? c_mhcode p2) && bytes_eqb (c_digest p1) (c_digest p2)) || bytes_eqb (snd b1) (snd b2)
+    | _, _ => true
+    end) bs) bs.
+Definition id_consistentb (bs : list block) : bool :=
+  forallb (fun b => match cid_parse (fst b) with
+                    | Some p => negb (is_identity p) || bytes_eqb (snd b) (c_digest p)
+                    | None => true
+                    end) bs.
